@@ -124,6 +124,8 @@ class Facts:
     def __init__(self, path):
         with open(path) as f:
             d = json.load(f)
+        from .canon import canonicalise
+        d, self.renamed = canonicalise(d)
         self.raw = d
         self.meta = d["meta"]
         self.bodies = {}
